@@ -25,7 +25,7 @@ pub fn run(tier: Tier, seed: u64) -> i32 {
                 return;
             }
         };
-        let model = reference(seed, n, h);
+        let model = reference(seed, n, &accepted_ops(&out.calls, n, h));
         let added: Vec<usize> = (0..n).collect();
         l.validated += 1;
         match check_muxer_output(&out.bytes, &model, &fam.movie, &added) {
